@@ -44,7 +44,7 @@ def run_design(part, tier, scratch, log):
         if d.get("emit"):
             res["inputs"] = [d["emit_parse"](t) for t in tlc.tuples(out, d["emit"])]
         return res
-    return cf.cached("iodesign", [part["name"], d["module"], consts, d.get("invariants", [])], compute)
+    return cf.cached("iodesign", [part["name"], d["module"], consts, d.get("invariants", [])], compute, module=d["module"])
 
 
 def run_real(part, tier, seed, scratch, design):
